@@ -7,6 +7,9 @@
 
 #include <functional>
 #include <thread>
+#ifdef YACLIB_VERIF
+#  include <yaclib/fault/verif_hook.hpp>
+#endif
 
 namespace yaclib::detail::fiber {
 
@@ -20,6 +23,11 @@ class Thread {
 
   template <typename... Args>
   explicit Thread(Args&&... args) : _impl{new Fiber<Args...>(std::forward<Args>(args)...)} {
+#ifdef YACLIB_VERIF
+    if (::yaclib::verif::gHooks != nullptr && ::yaclib::verif::gHooks->on_fiber != nullptr) {
+      ::yaclib::verif::gHooks->on_fiber(::yaclib::verif::kCreate, fault::Scheduler::GetId(), _impl->GetId(), nullptr, 0);
+    }
+#endif
     fault::Scheduler::GetScheduler()->Schedule(_impl);
   }
 
